@@ -528,6 +528,10 @@ func (r *run) judge(k int, lg *stepLog, res *result) {
 			}
 		} else if targeted && lg.Kind == "retention" {
 			if o, _ := r.readRetention(en); o != nil {
+				if !lg.sentUntil.IsZero() && !o.Until.Equal(lg.sentUntil) {
+					add(i, en, "retention-stored-differs-from-the-date-sent", fmt.Sprintf("PutObjectRetention named %s (%s), GetObjectRetention answers %s",
+						lg.sentUntil.UTC().Format(time.RFC3339), lg.Request, o.Until.UTC().Format(time.RFC3339)))
+				}
 				en.Ret = o // a retention was added to a version that had none
 			}
 		}
